@@ -114,6 +114,16 @@ Theorem c14_partial_success_delivered : forall e1 e2 bo cf cfg outs,
 Proof. exact run_partial. Qed.
 Print Assumptions c14_partial_success_delivered.
 
+(** ... and the report happens exactly when the response's partial_success rejected something or carried a
+    message ([reports] is what the six clients test; a success is delivered, in one attempt, in every case). *)
+Theorem c14_partial_success_reported_iff : forall e1 e2 bo cf cfg (p : partial_info) rest,
+  let o := retry_run e1 e2 bo cf cfg (OSuccess (reports p) :: rest) in
+  res o = ROk /\ attempts o = 1%nat /\
+  (handled o = 1%nat <-> exists n m, p = Partial n m /\ (n <> 0%N \/ m = true)) /\
+  (handled o = 0%nat \/ handled o = 1%nat).
+Proof. exact partial_report_iff. Qed.
+Print Assumptions c14_partial_success_reported_iff.
+
 (** ** Non-vacuity *)
 Definition ex_cfg : config := {| enabled := true; max_elapsed := 1000 |}.
 Definition ex_script : list response :=
